@@ -51,8 +51,11 @@ def r2(ctx):
          'that is the timeout event on the message')
   cbs = list(f.nested.values())
   if len(cbs) != 1:
-    lam = [c for c in walk_no_nested(f.node) if isinstance(c, ast.Call) and call_attr(c) in ('rawlink', 'ContinueWith', 'SafeLink') and c.args and isinstance(c.args[0], ast.Lambda)
-           and '_AsyncProcessRequestImpl' in U(c.args[0].body)]
+    parts = set(U(st.targets[0]) for st in walk_no_nested(f.node) if isinstance(st, ast.Assign) and isinstance(st.value, ast.Call) and U(st.value.func).endswith('partial')
+                and st.value.args and '_AsyncProcessRequestImpl' in U(st.value.args[0]))
+    lam = [c for c in walk_no_nested(f.node) if isinstance(c, ast.Call) and call_attr(c) in ('rawlink', 'ContinueWith', 'SafeLink') and c.args
+           and ((isinstance(c.args[0], ast.Lambda) and ('_AsyncProcessRequestImpl' in U(c.args[0].body) or any(isinstance(x, ast.Name) and x.id in parts for x in ast.walk(c.args[0].body))))
+                or U(c.args[0]) in parts)]
     if lam:
       ctx.ob('C12.R2', f, 'resumed only when the timeout event is absent or not set', False,
              'the request deferred until open completes is resumed by %s with no look at its timeout event at that time' % U(lam[0].args[0])[:90], why)
@@ -83,6 +86,18 @@ def r2(ctx):
       ctx.ob('C12.R2', cb, 'a live deferred request is resumed', False, 'request dropped under facts %s' % fs, 'a request whose call is still pending must be sent')
   ctx.floor('C12.R2', 'resume paths', n, 1)
   gate_direct(ctx)
+
+
+def discard_one_way(ctx, rule='C12.R5'):
+  """MethodDiscardMessage().is_one_way is True -- as the attribute lookup resolves it (method resolution order of the class as declared)."""
+  prog = ctx.prog
+  dc = prog.cls('scales/message.py', 'MethodDiscardMessage')
+  ow = prog.lookup_method(dc, 'is_one_way')
+  okw = ow is not None and U(ow.node.body[-1]).replace(' ', '') == 'returnTrue'
+  ctx.ob(rule, ow if ow is not None else 'scales/message.py:%d' % dc.node.lineno, 'a discard is one-way (tag 0, no reply expected)', okw,
+         'MethodDiscardMessage.is_one_way resolves to %s, which does not return True (method resolution order: %s)' % (
+           ('%s.is_one_way' % ow.cls.qualname) if ow is not None else 'nothing', [k.qualname for k in prog.mro(dc)]),
+         'a discard must not lease a tag: the transport writes it with header tag 0 and expects no reply', nontrivial=not okw)
 
 
 def observable_truthy(ctx, rule='C12.R1'):
@@ -378,8 +393,7 @@ def r5(ctx, backpressure=True):
                '%s.__init__ raises for a None service class, which is exactly how _CreateDiscardMessage builds it: the timeout callback dies and no Tdiscarded is sent' % cname, why)
   md = prog.func('scales/message.py', 'MethodDiscardMessage.__init__')
   ctx.ob('C12.R5', md, 'MethodDiscardMessage stores which/reason as given', 'self.which=which' in U(md.node).replace(' ', ''), 'MethodDiscardMessage changed', why, nontrivial=False)
-  ow = prog.func('scales/message.py', 'MethodDiscardMessage.is_one_way')
-  ctx.ob('C12.R5', ow, 'a discard is one-way (tag 0, no reply expected)', U(ow.node.body[-1]).replace(' ', '') == 'returnTrue', 'is_one_way changed', 'a discard must not lease a tag', nontrivial=False)
+  discard_one_way(ctx, 'C12.R5')
   tr = prog.func(MUX, 'MuxSocketTransportSink._ProcessTaggedReply')
   neut = [st for st in ast.walk(tr.node) if isinstance(st, ast.Assign) and 'Tag.KEY' in U(st.targets[0]) and U(st.value) == 'None']
   ctx.ob('C12.R5', tr, 'an answered request is not discarded later (Tag.KEY neutralised on reply)', len(neut) == 1, 'Tag.KEY reset on reply: %d' % len(neut),
